@@ -233,6 +233,21 @@ func (in *inst) embeddedCmd(c *client, argv []string) string {
 	case "subscribe", "psubscribe":
 		var rd sugardb.ReadPubSubMessage
 		var err error
+		// Frames queued by earlier publishes may still be on their way to the reader goroutine: let them
+		// arrive first, so that they are not mistaken for this command's confirmations.
+		sugardb.VerifPubSubQuiesce(quiesceBound)
+		stable, last := 0, -1
+		for i := 0; i < 200 && stable < 3; i++ {
+			c.mu.Lock()
+			n := len(c.frames)
+			c.mu.Unlock()
+			if n == last {
+				stable++
+			} else {
+				stable, last = 0, n
+			}
+			time.Sleep(time.Millisecond)
+		}
 		c.mu.Lock()
 		before := len(c.frames)
 		c.mu.Unlock()
